@@ -146,7 +146,7 @@ fn one_bytes(acc: &mut Acc, label: &dyn Fn() -> String, bytes: &[u8], cls: usize
         (Ok(vz), Ok(z)) => {
             // both accept: the contents must agree
             let d = vz.debug();
-            if canon_debug(&d) == canon_debug(&z.debug_string()) {
+            if same_content(acc, &d, &z.debug_string()) {
                 acc.hit(MUT_AGREE);
             } else {
                 acc.violation("from_tzif:content", format!("{}: VerifZone::from_tzif({} bytes)", label(), bytes.len()), z.debug_string().chars().take(600).collect(), d.chars().take(600).collect());
@@ -375,7 +375,7 @@ fn one_tz(acc: &mut Acc, s: &str, must_accept: bool, cls: usize) {
     match (got, want) {
         (Ok(vz), Some(r)) => {
             let z = RefZone::from_rule(r);
-            if canon_debug(&vz.debug()) != canon_debug(&z.debug_string()) {
+            if !same_content(acc, &vz.debug(), &z.debug_string()) {
                 acc.violation("from_tz:content", format!("VerifZone::from_tz(Some({:?}))", s), z.debug_string(), vz.debug());
             } else {
                 acc.hit(if must_accept { TZ_EQ } else { MUT_AGREE });
@@ -497,10 +497,45 @@ fn tz_edits(acc: &mut Acc, base: &str, depth2: bool) {
     }
 }
 
+/// Whether the Debug rendering of chrono's zone has the layout the reference renders (decided once, on two vanilla
+/// zones). If a change re-formats that rendering (other field names, extra cached fields, a compact form), the
+/// *structural* comparison is switched off for the run instead of being reported: the statement is about what is read,
+/// not about how internal types print themselves; acceptance / rejection, survival and allocation stay judged here, and
+/// the contents are still judged behaviourally by C05.
+static STRUCT_OK: std::sync::atomic::AtomicBool = std::sync::atomic::AtomicBool::new(true);
+fn same_content(acc: &mut Acc, impl_debug: &str, reference: &str) -> bool {
+    if !STRUCT_OK.load(std::sync::atomic::Ordering::Relaxed) {
+        acc.skip("zone Debug layout not recognised: structural comparison skipped (contents judged by C05)");
+        return true;
+    }
+    canon_debug(impl_debug) == canon_debug(reference)
+}
+fn probe_debug_layout() -> bool {
+    let probes = ["AAA-1", "AAA-1BBB,M3.2.0,M11.1.0"];
+    for p in probes {
+        let Some(r) = parse_tz_string(p, false) else { return false };
+        let z = RefZone::from_rule(r);
+        match guard(|| VerifZone::from_tz(Some(p))) {
+            Ok(Ok(vz)) if canon_debug(&vz.debug()) == canon_debug(&z.debug_string()) => {}
+            _ => return false,
+        }
+    }
+    // a table zone: two transitions, two types, no footer
+    let z = RefZone { trans: vec![(-1_000_000, 1), (1_000_000, 0)], types: vec![RefType { off: 3600, dst: false, abbr: "AAA".into() }, RefType { off: 7200, dst: true, abbr: "BBB".into() }], rule: None };
+    let bytes = write_tzif(&z, 2, chrono_mc::reftz::V1Block::Fat, false);
+    match guard(|| VerifZone::from_tzif(&bytes)) {
+        Ok(Ok(vz)) => canon_debug(&vz.debug()) == canon_debug(&z.debug_string()),
+        _ => false,
+    }
+}
+
 fn main() {
     install_panic_hook();
     let args = parse_args();
     let start = Instant::now();
+    if !probe_debug_layout() {
+        STRUCT_OK.store(false, std::sync::atomic::Ordering::Relaxed);
+    }
     if let Err(e) = selftest() {
         machinery(&format!("RefCal self-test failed: {}", e));
     }
@@ -584,7 +619,7 @@ fn main() {
                     match guard(|| VerifZone::from_tzif(&bytes)) {
                         Ok(Ok(vz)) => {
                             let d = vz.debug();
-                            if canon_debug(&d) == canon_debug(&zr.debug_string()) {
+                            if same_content(acc, &d, &zr.debug_string()) {
                                 acc.hit(ACC_EQ);
                             } else {
                                 acc.violation("from_tzif:content", format!("synthetic zone #{} written as TZif v{} {:?} indicators={}", code, version, v1, ind), zr.debug_string(), d);
@@ -609,7 +644,7 @@ fn main() {
                 acc.states += 1;
                 match (guard(|| VerifZone::from_tzif(&b)), read_tzif(&b)) {
                     (Ok(Ok(vz)), Ok(z)) => {
-                        if canon_debug(&vz.debug()) == canon_debug(&z.debug_string()) {
+                        if same_content(acc, &vz.debug(), &z.debug_string()) {
                             acc.hit(SYS_EQ);
                         } else {
                             acc.violation("from_tzif:system-content", format!("{}", p.display()), z.debug_string().chars().take(500).collect(), vz.debug().chars().take(500).collect());
